@@ -69,7 +69,7 @@ def run(rep):
     rep.trusted_base = list(STD_TRUSTED) + ['model of str/int on digit strings (vlib/pyvc/lib.py DigitString)', 'background lemmas: (2^s * t) >> s = t;  x & 2^s = 2^s * ((x div 2^s) mod 2)']
     for a in STD_ASSUME:
         rep.assume(a)
-    rep.assume('the protocol queries of TruthTable and PyFunction are proved on a symbolic truth table for the shapes (n inputs, m outputs) in {(1,1), (2,1), (2,2)} (and (3,1) in the thorough tier): all functions of these shapes; larger shapes, the queries of Circuit, model completion and integer wrappers have no deductive obligation (bounded stand-in: exhaustive for n<=2, m<=2 quick; n<=3 thorough)')
+    rep.assume('the protocol queries of TruthTable and PyFunction are proved on a symbolic truth table for the shapes (n inputs, m outputs) in {(1,1), (2,1), (2,2)} (and (3,1) in the thorough tier): all functions of these shapes; larger shapes, the queries of Circuit beyond the one-gate circuits ty(x0, x1) with a symbolic gate type (which are proved), model completion and integer wrappers have no deductive obligation (bounded stand-in: exhaustive for n<=2, m<=2 quick; n<=3 thorough)')
     it = new_interp()
     pv = Prover(rep, it, 'C12')
     for n in range(0, 6):
